@@ -11,7 +11,10 @@ Record c18_case := {
   o_ins : N; o_err : N;                           (* BulkEditResult *)
   o_bulk : list (string * (list (string * (string * N)) * list (string * (string * N))));  (* graph -> (vertices, edges) after the bulk load *)
   o_seq : list (string * (list (string * (string * N)) * list (string * (string * N))));   (* ... after adding one at a time *)
-  o_seq_ok : N; o_seq_failed : N }.               (* acknowledged / refused single adds *)
+  o_seq_ok : N; o_seq_failed : N;                 (* acknowledged / refused single adds *)
+  o_bulk_anon : list (string * nat); o_seq_anon : list (string * nat);   (* per graph: edges stored under a generated id *)
+  c_batch : nat;                                  (* util.StreamBatch on the g1 elements of the stream with this batch size *)
+  o_vbatches : list (list N); o_ebatches : list (list N) }.   (* the batches handed to vertexAdd / edgeAdd (payloads) *)
 
 Definition ex (c : c18_case) (g : string) : bool := existsb (String.eqb g) (c_exists c).
 Definition model (c : c18_case) : bres := bulk_run (ex c) (c_stream c).
@@ -35,11 +38,37 @@ Definition graph_ok (c : c18_case) (obs : list (string * (list (string * (string
   | None => match ws with [] => true | _ => false end
   end.
 
+Definition anon_ok (c : c18_case) (obs : list (string * nat)) (g : string) : bool :=
+  let n := match find (fun p => String.eqb (fst p) g) obs with Some p => snd p | None => 0%nat end in
+  Nat.eqb n (anon_edges (log_of (r_logs (model c)) g)).
+(* StreamBatch: what its two callbacks receive, against Model/Bulk.v's chunks *)
+Definition g1_elems (c : c18_case) : list belem := filter (fun e => String.eqb (b_graph e) "g1") (c_stream c).
+(* StreamBatch re-validates with gdbi's DataElement.Validate: id and label not blank, field names valid; it does
+   not look at an edge's endpoints (the server's BulkAdd has validated those before) *)
+Definition sb_valid (e : belem) (need_id : bool) : bool :=
+  (negb need_id || negb (String.eqb (b_gid e) "")) && negb (String.eqb (b_label e) "") && forallb field_ok (b_keys e).
+Definition batch_items_v (c : c18_case) : list N := map b_val (filter (fun e => b_is_vertex e && sb_valid e true) (g1_elems c)).
+Definition batch_items_e (c : c18_case) : list N :=
+  map b_val (filter (fun e => negb (b_is_vertex e) && b_is_edge e && sb_valid e false) (g1_elems c)).
+Fixpoint nlist_eqb (a b : list N) : bool :=
+  match a, b with [], [] => true | x :: r, y :: r' => N.eqb x y && nlist_eqb r r' | _, _ => false end.
+Fixpoint nll_eqb (a b : list (list N)) : bool :=
+  match a, b with [], [] => true | x :: r, y :: r' => nlist_eqb x y && nll_eqb r r' | _, _ => false end.
+Definition nonempty_chunks (k : nat) (l : list N) : list (list N) :=
+  filter (fun b => match b with [] => false | _ => true end) (chunks (List.length l) k l).
+Definition batches_agree (c : c18_case) : bool :=
+  nll_eqb (o_vbatches c) (nonempty_chunks (c_batch c) (batch_items_v c)) && nll_eqb (o_ebatches c) (nonempty_chunks (c_batch c) (batch_items_e c)).
+Definition batches_spec (c : c18_case) : bool :=
+  nlist_eqb (List.concat (o_vbatches c)) (batch_items_v c) && nlist_eqb (List.concat (o_ebatches c)) (batch_items_e c)
+  && forallb (fun b => Nat.leb (List.length b) (c_batch c)) (o_vbatches c ++ o_ebatches c).
+
 Definition agrees (c : c18_case) : bool :=
   (o_ins c =? r_ins (model c))%N && (o_err c =? r_err (model c))%N
   && forallb (graph_ok c (o_bulk c)) (c_exists c)
   && forallb (graph_ok c (o_seq c)) (c_exists c)
-  && (o_seq_ok c =? r_ins (model c))%N.
+  && (o_seq_ok c =? r_ins (model c))%N
+  && forallb (anon_ok c (o_bulk_anon c)) (c_exists c) && forallb (anon_ok c (o_seq_anon c)) (c_exists c)
+  && batches_agree c.
 (* the property on the observations alone: bulk state = sequential state, counts = acknowledged singles *)
 Definition obs_eq (c : c18_case) (g : string) : bool :=
   match find (fun p => String.eqb (fst p) g) (o_bulk c), find (fun p => String.eqb (fst p) g) (o_seq c) with
@@ -48,7 +77,10 @@ Definition obs_eq (c : c18_case) (g : string) : bool :=
   | _, _ => false
   end.
 Definition spec_ok (c : c18_case) : bool :=
-  forallb (obs_eq c) (c_exists c) && (o_ins c =? o_seq_ok c)%N && (o_err c =? o_seq_failed c)%N.
+  forallb (obs_eq c) (c_exists c) && (o_ins c =? o_seq_ok c)%N && (o_err c =? o_seq_failed c)%N
+  && forallb (fun g => match find (fun p => String.eqb (fst p) g) (o_bulk_anon c), find (fun p => String.eqb (fst p) g) (o_seq_anon c) with
+                       | Some a, Some b => Nat.eqb (snd a) (snd b) | None, None => true | _, _ => false end) (c_exists c)
+  && batches_spec c.
 
 Fixpoint idx_filter {A} (f : A -> bool) (l : list A) (i : nat) : list nat :=
   match l with [] => [] | x :: r => if f x then i :: idx_filter f r (S i) else idx_filter f r (S i) end.
